@@ -1,4 +1,4 @@
-package main
+package core
 
 import (
 	"encoding/hex"
@@ -9,7 +9,7 @@ import (
 )
 
 // hx encodes a string as one token: hex of its bytes, "-" for the empty string.
-func hx(s string) string {
+func Hx(s string) string {
 	if s == "" {
 		return "-"
 	}
@@ -17,7 +17,7 @@ func hx(s string) string {
 }
 
 // unhx decodes a token written by hx.
-func unhx(t string) string {
+func Unhx(t string) string {
 	if t == "-" {
 		return ""
 	}
@@ -28,14 +28,14 @@ func unhx(t string) string {
 	return string(b)
 }
 
-func b01(b bool) string {
+func B01(b bool) string {
 	if b {
 		return "1"
 	}
 	return "0"
 }
 
-func atoi(s string) int {
+func Atoi(s string) int {
 	n, err := strconv.Atoi(s)
 	if err != nil {
 		panic("bad int " + s)
@@ -43,20 +43,20 @@ func atoi(s string) int {
 	return n
 }
 
-func sortedJoin(xs []string, sep string) string {
+func SortedJoin(xs []string, sep string) string {
 	sort.Strings(xs)
 	return strings.Join(xs, sep)
 }
 
-func showCounts(m map[string]int) string {
+func ShowCounts(m map[string]int) string {
 	var xs []string
 	for k, v := range m {
-		xs = append(xs, hx(k)+":"+strconv.Itoa(v))
+		xs = append(xs, Hx(k)+":"+strconv.Itoa(v))
 	}
-	return "[" + sortedJoin(xs, ",") + "]"
+	return "[" + SortedJoin(xs, ",") + "]"
 }
 
-func pick[T any](r *rand.Rand, xs []T) T { return xs[r.Intn(len(xs))] }
+func Pick[T any](r *rand.Rand, xs []T) T { return xs[r.Intn(len(xs))] }
 
 // someStrings is a small alphabet of ids with awkward members (unicode, spaces, long).
-var epAlphabet = []string{"e", "ep", "ep2", "my-endpoint", "é✓", "a b", "E"}
+var EpAlphabet = []string{"e", "ep", "ep2", "my-endpoint", "é✓", "a b", "E"}
